@@ -50,6 +50,11 @@ func (d *Decoder) ExpectTypesInInterface(types ...reflect.Type) {
 	d.expectedTypes = types
 }
 
+// ExpectedTypes returns the hints set by ExpectTypesInInterface that were not used yet
+func (d *Decoder) ExpectedTypes() []reflect.Type {
+	return d.expectedTypes
+}
+
 func (d *Decoder) read(buf []byte) {
 	if d.err != nil {
 		return
